@@ -3,6 +3,6 @@ CONSTANTS
   Impl = "clone"
   Inputs <- ModelInputs
   MaxSteps = 4
-INVARIANTS DependsOnArgOnly ErrTextOfThisArg FreshAcrossCalls ResultsAreNew
+INVARIANTS DependsOnArgOnly ErrTextOfThisArg ErrTextsAreValues FreshAcrossCalls ResultsAreNew
 PROPERTIES CallsWriteNothing
 CHECK_DEADLOCK FALSE
